@@ -466,3 +466,40 @@ def index_normalisation_rule(ctx, rule):
                    'default RangeIndex); a guard that looks at the new frame changes the column set and the append is refused '
                    'or misaligned' % (norm(inner.test) if inner is not None else '(unconditional)'), wr.loc(st))
     ctx.floor(rule, 'index normalisation sites on append routes', n, 2)
+
+
+MODE_PARAMS = ('append', 'file_scheme', 'write_fmd', 'sort_pnames')
+
+
+def mode_params_rule(ctx, rule):
+    """the caller's mode switches (append or replace, layout, whether/when the summary is written, renumbering) are
+    never rebound inside the write path: an append that silently turns into a fresh write re-opens existing part
+    files with 'wb'; and the stored representation of a column follows the dataset's schema element, not the dtype of
+    the frame at hand (an appended int64 frame into a DOUBLE column must be cast to double)"""
+    wr, api = ctx.repo['writer'], ctx.repo['api']
+    n = 0
+    for m, q in ((wr, 'write'), (wr, 'write_multi'), (wr, 'write_simple'), (wr, 'overwrite'), (api, 'ParquetFile.write_row_groups')):
+        f = m.func(q)
+        params = {a.arg for a in f.args.args + f.args.kwonlyargs}
+        for st in walk_no_nested(f):
+            tg = []
+            if isinstance(st, ast.Assign):
+                tg = st.targets
+            elif isinstance(st, (ast.AugAssign, ast.AnnAssign)):
+                tg = [st.target]
+            for t in tg:
+                for x in ast.walk(t):
+                    if isinstance(x, ast.Name) and x.id in MODE_PARAMS and x.id in params:
+                        n += 1
+                        ctx.ob(rule, '%s.%s:mode-parameter-%s-is-not-rebound' % (m.name, q, x.id), False,
+                               '`%s`' % norm(st)[:80], m.loc(st))
+    ctx.ob(rule, 'write-path:mode-parameters-never-rebound', True, '%d rebinding(s) of %s found' % (n, list(MODE_PARAMS)), '')
+    f = wr.func('convert')
+    subs = [x for x in walk_no_nested(f) if isinstance(x, ast.Subscript) and norm(x.value) == 'revmap']
+    tdef = [st for st in f.body if isinstance(st, ast.Assign) and norm(st.targets[0]) == 'type']
+    ok_def = len(tdef) == 1 and norm(tdef[0].value) == 'se.type'
+    ctx.floor(rule, 'cast targets looked up in revmap', len(subs), 2)
+    for x in subs:
+        ctx.ob(rule, 'writer.convert:cast-target-follows-the-schema-element:%s' % norm(x)[:30], ok_def and norm(x.slice) in ('type', 'se.type'),
+               '`%s` with type = %s: the chunk is declared with the schema element\'s physical type; casting to anything else '
+               'writes bytes of another width into it' % (norm(x), norm(tdef[0].value) if tdef else '?'), wr.loc(x))
